@@ -36,7 +36,7 @@ static void do_op(Cmd *c) {
             conf.cmp = pick_cmp(which);
             conf.mem_alloc = conf_malloc; conf.mem_calloc = conf_calloc; conf.mem_free = conf_free;
             st = cc_treetable_new_conf(&conf, &tt);
-        } else { default_mode = 1; st = cc_treetable_new(pick_cmp(which), &tt); }
+        } else { st = cc_treetable_new(pick_cmp(which), &tt); }
         if (st != CC_OK) tt = NULL;
         o_stat(st); o(" ");
     } else if (!tt) { o("st=- nosession"); o_sep(); o("-"); return;
